@@ -729,6 +729,9 @@ func (n *ExtendsNode) Render(w io.Writer, ctx *RenderContext) error {
 	parentCtx := NewRenderContext(ctx.env, ctx.context, ctx.engine)
 	parentCtx.extending = true // Flag that the parent is being extended
 	parentCtx.sandboxed = ctx.sandboxed
+	// Variables visible to the extending template stay visible in its parent: a context made by
+	// Clone (an include) keeps them in its parent contexts, not in its own map
+	parentCtx.parent = ctx.parent
 
 	// Pass along the parent template as lastLoadedTemplate for relative path resolution
 	parentCtx.lastLoadedTemplate = parentTemplate
